@@ -123,7 +123,7 @@ namespace sim
       }
       // page-size boundaries (mapped files): pad with insignificant whitespace up to 0/1/4095/4096/4097/8192 bytes
       const bool file_class = ( io_class == IO_MMAP || io_class == IO_FILE || io_class == IO_READ || io_class == IO_READ_FP );
-      if( file_class ? r.chance( 1, 8 ) : r.chance( 1, 60 ) ) {
+      if( file_class ? r.chance( 1, 14 ) : r.chance( 1, 100 ) ) {
          static const std::size_t targets[] = { 0, 1, 4095, 4096, 4096, 4097, 8192 };
          const std::size_t t = targets[ r.below( r.chance( 1, 6 ) ? 7 : 6 ) ];
          if( t < s.size() ) {
